@@ -187,7 +187,13 @@ pub(crate) fn inline_def_body(
     params: &ParametersCompiled<IrSpanned<ExprCompiled>>,
     body: &StmtsCompiled,
 ) -> Option<InlineDefBody> {
-    if params.params.len() == 1 && params.params[0].accepts_positional() {
+    // The call `f(x)` is rewritten to a type test without binding the argument,
+    // so the only parameter must be one which can be filled positionally
+    // (`accepts_positional` is also true for a named-only parameter `def f(*, x)`).
+    if params.params.len() == 1
+        && params.params[0].accepts_positional()
+        && params.indices.num_positional == 1
+    {
         if let Some(t) = is_return_type_is(body) {
             return Some(InlineDefBody::ReturnTypeIs(t));
         }
